@@ -3,7 +3,8 @@ C01 - a run never aborts.  Decides (DESIGN.md section 3, C01):
   R01.1 no exception from the curated sources T1/T2/T3 can leave a run phase entry
   R01.2 the parse barrier (unparsable file -> reported, None, next module)
   R01.3 barrier census: the four documented catch-alls are shaped as barriers
-Does not decide: termination, exceptions outside the tables, docutils/twisted internals.
+  R01.4 while loops without an exit of their own make progress (narrow non-termination rule; sa/progress.py)
+Does not decide: termination in general (recursion, for loops over growing lists, loops that leave through break), exceptions outside the tables, docutils/twisted internals.
 """
 from __future__ import annotations
 
@@ -266,6 +267,26 @@ def run(repo: Repo, chk: Check, thorough: bool = False) -> None:
             chk.ob('R01.3', f'{q} :: catch-all around {"/".join(partial)}', False,
                    f'no try with a catch-all handler (Exception/bare) around {partial} in {q}', f.loc)
     chk.require('R01.3', 8)
+
+    # ---- R01.4 loops make progress (the narrow non-termination rule of sa/progress.py)
+    from ..progress import stuck_loops
+    n_loops = n_decided = 0
+    for f in sorted(repo.funcs.values(), key=lambda f: f.qn):
+        if '.test' in f.mod.name or f.mod.name in tables.OPAQUE_MODULES or f.mod.name.startswith('pydoctor.sphinx_ext'):
+            continue
+        k = 0
+        for loop, verdict, why in stuck_loops(repo, f):
+            n_loops += 1
+            if verdict == 'not-analysed':
+                continue
+            n_decided += 1
+            k += 1
+            chk.ob('R01.4', f'{f.qn} :: while `{norm(loop.test)[:50]}` makes progress', verdict != 'stuck', why, repo.loc(f.mod, loop))
+    chk.stats['while_loops'] = n_loops
+    chk.stats['while_loops_decided'] = n_decided
+    if n_loops < 30:
+        raise AnalysisError(f'R01.4: only {n_loops} while loops found (37 outside tests and the vendored sre parser)')
+    chk.require('R01.4', 10)
 
 
 def _role(f: Func, c: ast.Call) -> str:
